@@ -46,7 +46,9 @@ def trimLeftSpaces : Bytes → Bytes
 def hookTransform (live : List (String × String)) (o : Obj) : Obj :=
   let pA := posOf live "A"; let pI := posOf live "I8"; let pS := posOf live "S"
   let vals := match o.field pI, o.field pA with
-    | .v (.i64 7), .v (.i64 a) => setLeaf o.vals pA (.v (.i64 (a + 1)))
+    | .v (.i64 7), .v (.i64 a) =>
+      -- Go's int64 `A++` wraps around
+      setLeaf o.vals pA (.v (.i64 (if a + 1 > 9223372036854775807 then -9223372036854775808 else a + 1)))
     | _, _ => o.vals
   let vals := match vals.getD pS (.opaque "?") with
     | .v (.str s) => setLeaf vals pS (.v (.str (trimLeftSpaces s)))
